@@ -21,10 +21,12 @@ Par(e) == [L |-> e.p.L, sknb |-> e.p.sknb, skna |-> e.p.skna]
 
 \* ---- C08 clauses, each "for some admissible instant" ----
 C08Clauses(e) ==
-  LET pre == e.pre  post == e.post  ret == e.ret  re == e.op.reinit  p == Par(e)  tol == Tol(e)
+  \* with the skip-storage option nothing is stored by design: the clauses are judged on the RETURNED pair
+  LET pre == e.pre  ret == e.ret  post == IF e.op.skip THEN e.ret ELSE e.post  re == e.op.reinit  p == Par(e)  tol == Tol(e)
       eff == IF re THEN Empty ELSE pre
   IN
   (IF post # ret THEN {"storage-differs-from-return"} ELSE {}) \cup
+
   (IF IsAbsent(post.cur) \/ IsAbsent(post.next) \/ post.cur.id = post.next.id \/ ~e.flags.wellformed \/ ~e.flags.reload \/ ~e.flags.derEqProto
       THEN {"not-two-wellformed-selfsigned-ca-roots"} ELSE {}) \cup
   (IF ~\E n \in Instants(e) : post.cur.nb - tol <= n /\ n <= post.cur.na + tol THEN {"current-not-valid-now"} ELSE {}) \cup
@@ -80,7 +82,7 @@ Step ==
                    ~\E n \in Instants(e) : LET r == RotateF(e.pre, n, Par(e), e.op.reinit, 0, e.op.fault) IN
                         /\ (r.ok <=> e.res = "ok")
                         /\ (~r.ok /\ ~HalfMissing(e.pre) => IsEmpty(e.post) = IsEmpty(r.s))
-                        /\ (r.ok => (IF e.op.reinit THEN "both" ELSE Observed(e.pre, e.post)) = r.d)
+                        /\ (r.ok => (IF e.op.reinit THEN "both" ELSE Observed(e.pre, IF e.op.skip THEN e.ret ELSE e.post)) = r.d)
      IN /\ \A c \in v08 : PrintT(<<"VIOL", "C08", c, e.tr, e.i>>)
         /\ \A c \in v09 : PrintT(<<"VIOL", "C09", c, e.tr, e.i>>)
         /\ (pdrift => PrintT(<<"DRIFT", e.tr, e.i, e.op.op, "decision", e.res, FALSE>>))
